@@ -7,7 +7,7 @@ RULE = ("micro APIs over a grid: (response-type form) x (metadata-type form) wit
         "{same file | other file imported by the service's file | other file NOT imported, listed before or after the service's file}, "
         "google.protobuf.Empty (imported by the service's file or only by another file), nested (qualified, package-relative, and "
         "package-relative while a top-level package of the same name exists, package-relative with the enclosing message in "
-        "another file, imported or not), flattened request fields named like the api_core modules (operation, operation_async), "
+        "another file, imported or not), a type alone in a file of its own that nobody imports and no other method uses, flattened request fields named like the api_core modules (operation, operation_async), "
         "another package, missing, unknown (relative, qualified, leading dot), plus un-annotated Operation methods, three packages. "
         "Schema level: every sampled grid cell is decided by the real API.build and by the model (T2). End to end: a slice of the "
         "cells is generated, the emitted from_gapic arguments and operations-client properties are read with ast (T1), and the "
@@ -37,6 +37,7 @@ GET_OP = "/google.longrunning.Operations/GetOperation"
 
 VALID = ["rel_same", "fq_same", "rel_imported", "fq_imported", "rel_notimported", "fq_notimported", "empty", "empty_elsewhere",
          "fq_nested", "fq_otherpkg", "rel_nested", "rel_nested_imported", "rel_nested_notimported"]
+VALID += ["rel_alone", "fq_alone"]   # the type sits alone in a file of its own that nobody imports and no other method touches
 GEN_ONLY = ["rel_nested_shadowed"]   # both readings of the dotted name exist: decision compared model-vs-code only
 QUIRK = ["rel_nested", "rel_nested_imported", "rel_nested_notimported"]               # former finding lro.nested_relative_type (fixed): a regression carries that signature
 MISSING = ["missing"]
@@ -53,6 +54,7 @@ def annotation(kind, pkg, S):
         "rel_same": f"Local{S}", "fq_same": f"{pkg}.Local{S}",
         "rel_imported": f"Imp{S}", "fq_imported": f"{pkg}.Imp{S}",
         "rel_notimported": f"Other{S}", "fq_notimported": f"{pkg}.Other{S}",
+        "rel_alone": f"Alone{S}", "fq_alone": f"{pkg}.Alone{S}",
         "empty": "google.protobuf.Empty", "empty_elsewhere": "google.protobuf.Empty",
         "fq_nested": f"{pkg}.Outer.Inner{S}", "rel_nested": f"Outer.Inner{S}", "rel_nested_shadowed": f"Outer.Inner{S}",
         # nested, package-relative, the enclosing message in ANOTHER file than the service (imported / not imported)
@@ -104,6 +106,13 @@ def build_api(cell):
         s.rpc("Kick", rq.fqn, OPERATION, http=("post", "/v1/{name=jobs/*}:kick"), body="*")
     files = [types, more, svc] if cell["order"] == "types-first" else [more, svc, types]
     to_gen = [f.proto.name for f in (svc, more, types)]
+    for S, fname in (("Resp", "operation_result"), ("Meta", "operation_metadata")):
+        slot = cell["resp"] if S == "Resp" else cell["meta"]
+        if cell["annotated"] and slot in ("rel_alone", "fq_alone"):
+            alone = File(f"{d}/{fname}.proto", pkg)
+            alone.message("Alone" + S).field("note", 1, "string").field("n", 2, "int32")
+            files = files + [alone] if cell["order"] == "svc-first" else [alone] + files
+            to_gen.append(alone.proto.name)
     if "fq_otherpkg" in kinds:
         files = [shared] + files
     if "rel_nested_shadowed" in kinds:
@@ -343,10 +352,20 @@ def extract_wrapping(src, method, files, req=None):
     rets = [n for n in ast.walk(fn) if isinstance(n, ast.Return)]
     if not rets or ast.unparse(rets[-1].value) != "response":
         raise ValueError(f"method {method}: does not return 'response'")
+    unresolved = []
+
+    def name_of(e):
+        # a type argument that cannot be traced to a message is reported (T1 fails closed) but does not stop the driving
+        try:
+            return proto_name_of(e, imports, files, req)
+        except Exception as ex:  # noqa
+            unresolved.append(f"{ast.unparse(e)}: {ex}")
+            return f"<unresolved {ast.unparse(e)}>"
+
     return {"returns": ret, "wrap": {
         "module": (imports.get(_dotted(c.func)[0]) or "<not imported>").rsplit(".", 1)[-1], "func": c.func.attr, "first": c.args[0].id, "client": ast.unparse(c.args[1]),
-        "result_type": proto_name_of(c.args[2], imports, files, req), "kw": c.keywords[0].arg,
-        "metadata_type": proto_name_of(c.keywords[0].value, imports, files, req),
+        "result_type": name_of(c.args[2]), "kw": c.keywords[0].arg,
+        "metadata_type": name_of(c.keywords[0].value), "unresolved": unresolved,
         "module_import": imports.get(_dotted(c.func)[0]), "module_name": _dotted(c.func)[0],
         "params": [a.arg for a in fn.args.args + fn.args.kwonlyargs]}}
 
@@ -679,6 +698,8 @@ def e2e_case(args):
             res["t1"].append((f"{fname} start: from_gapic arguments [{json.dumps(cell, sort_keys=True)}]",
                               f"match client_output {coq.b(is_async)} (decide {F} {P} {M}) with "
                               f"Some (ReturnsFuture w) => wrapping_eqb w {term} | _ => false end"))
+            res["oblige"].append((f"T1 {fname}: both from_gapic type arguments are traced to messages through the module's imports",
+                                  not ww["unresolved"], "; ".join(ww["unresolved"])[:300]))
             want_mod = "google.api_core.operation_async" if is_async else "google.api_core.operation"
             res["oblige"].append((f"T1 {fname}: the from_gapic module is {want_mod}", ww["module_import"] == want_mod, str(ww["module_import"])))
             res["oblige"].append((f"T1 {fname}: the name the from_gapic module is called by (alias included) is not a parameter of the method",
@@ -881,6 +902,7 @@ def e2e_cells(ctx, n):
         {"pkg_index": 0, "resp": "rel_notimported", "meta": "fq_notimported", "annotated": True, "order": "svc-first", "types_name": "operation"},
         {"pkg_index": 1, "resp": "missing", "meta": "missing", "annotated": True, "order": "svc-first"},
         {"pkg_index": 2, "resp": "rel_notimported", "meta": "rel_same", "annotated": True, "order": "svc-first", "flat": "operation"},
+        {"pkg_index": 1, "resp": "rel_alone", "meta": "rel_same", "annotated": True, "order": "types-first"},
         {"pkg_index": 0, "resp": "empty", "meta": "rel_nested_imported", "annotated": True, "order": "types-first", "flat": "operation_async"},
     ]
     i = 0
@@ -935,7 +957,7 @@ def run_e2e(ctx, cells, tier_all, full=True):
 
 def run(ctx):
     run_schema(ctx, grid(ctx, ctx.n(70, 700)))
-    run_e2e(ctx, e2e_cells(ctx, ctx.n(19, 100)), tier_all=not ctx.quick())
+    run_e2e(ctx, e2e_cells(ctx, ctx.n(21, 100)), tier_all=not ctx.quick())
 
 
 def search(ctx, broken):
